@@ -3,6 +3,7 @@ Import hh_eval, not this module."""
 from __future__ import annotations
 import math, cmath
 from .hh_np import Arr, Unknown, Raised, asarr, elementwise, reduce_axis, kind, join, cast, broadcast_vals, _prod
+from .hh_sym import is_sym, sym_math, SymC
 from .hh_eval import Builtin, ErrState, DType, Lazy, ExtM, Obj, Cls, Func, ExcObj, Rec, is_number
 
 
@@ -176,8 +177,19 @@ def py_type_call(it, t, a, k):
         if not a:
             return t()
         if t is complex and len(a) == 2:
+            if is_sym(a[0]) or is_sym(a[1]):
+                return SymC.make(scalar(a[0]), scalar(a[1]))
             return complex(real(a[0]), real(a[1]))
         x = a[0]
+        if is_sym(x) or (isinstance(x, Arr) and x.size == 1 and is_sym(x.vals()[0])):
+            v = scalar(x)
+            if t is float and not isinstance(v, SymC):
+                return v                 # float() of an exact value: the value
+            if t is complex:
+                return SymC.of(v)
+            if t is bool:
+                return bool(v)
+            raise Unknown("int() of a symbolic value")
         if isinstance(x, str):
             try:
                 return t(x)
@@ -430,6 +442,8 @@ def np_unary(name, f, complex_ok=False, keep_int=False, promote=True):
         x = a[0]
 
         def h(v):
+            if is_sym(v):
+                return sym_math(name, [v])
             if isinstance(v, complex) and not complex_ok:
                 raise Unknown(f"np.{name} of a complex number")
             try:
@@ -1410,6 +1424,8 @@ def M(name, f, n=1, domain_exc=True):
         if len(a) != n and n is not None:
             raise Raised(TypeError, f"math.{name} expects {n} argument(s)")
         vals = [real(x) for x in a]
+        if any(is_sym(v) for v in vals):
+            return sym_math(name, vals)
         try:
             return f(*vals)
         except ValueError:
@@ -1439,6 +1455,8 @@ def C(name, f, n=1):
     def g(it, a, k):
         no_kw(k)
         vals = [scalar(x) for x in a]
+        if any(is_sym(v) for v in vals):
+            return sym_math(name, vals)
         try:
             return f(*vals)
         except (ValueError, ZeroDivisionError):
